@@ -338,7 +338,7 @@ void run_C01(void) {
   unsigned ctr = 0;
   for (size_t ni = 0; ni < N_ALL_N; ni++) {
     const uint64_t N = ALL_N[ni];
-    const unsigned reps = th ? (N <= 1024 ? 40 : (N <= 8192 ? 10 : 3)) : (N <= 1024 ? 3 : (N <= 8192 ? 2 : 1));
+    const unsigned reps = th ? (N <= 1024 ? 200 : (N <= 8192 ? 40 : 10)) : (N <= 1024 ? 10 : (N <= 8192 ? 4 : 2));
     for (int fam = 0; fam < NFAM; fam++)
       for (int native = 1; native >= 0; native--)
         for (unsigned rep = 0; rep < reps; rep++) {
@@ -353,9 +353,9 @@ void run_C01(void) {
           svp_case(N, fam, native, (int)(ctr & 1), rs, as, ctr % 4, rep);
           if (rep == 0 && N <= 4096) svp_case(N, fam, native, (int)((ctr + 1) & 1), as, rs, (ctr + 1) % 4, rep);
         }
-    if (th && N <= 1024)
+    if (N <= (th ? 4096u : 256u))
       for (int native = 1; native >= 0; native--)
-        for (unsigned rep = 0; rep < 4; rep++) greedy_case(N, native, rep);
+        for (unsigned rep = 0; rep < (th ? 8u : 1u); rep++) greedy_case(N, native, rep);
   }
   // full (res, a) box on small N for the svp path, both idft variants and both dispatches
   static const uint64_t bN[] = {2, 4, 8, 16, 64};
